@@ -1256,6 +1256,7 @@ static void run_op(char **t, int nt)
 		fprintf(LOG, "{\"ev\":\"oom\",\"count\":%lu,\"failed\":", vm_alloc_count());
 		if (vm_fail_func()) fprintf(LOG, "{\"f\":\"%s\",\"l\":%d,\"k\":\"%s\"}", vm_fail_func(), vm_fail_line(), vm_fail_kind());
 		else fputs("null", LOG);
+		if (nt > 1 && !strcmp(t[1], "trace")) { fputs(",\"trace\":", LOG); vm_trace_report(LOG); }
 		fputs("}\n", LOG);
 		fflush(LOG);
 		return;
